@@ -9,6 +9,7 @@ import (
 	"regexp"
 	"runtime"
 	"sort"
+	"strconv"
 	"strings"
 	"time"
 
@@ -135,6 +136,10 @@ func devMain(args []string) int {
 	timeout := fs.Int("timeout", 30000, "solver timeout ms")
 	preempt := fs.Int("preempt", 0, "preemption bound")
 	perm := fs.Bool("maporder", false, "explore map iteration orders")
+	forks := fs.Bool("forks", false, "profile fork sites")
+	params := fs.String("params", "", "k=v,k=v harness parameters")
+	symlen := fs.Int("symlen", 0, "max symbolic allocation length")
+	budget := fs.Duration("budget", 0, "wall budget")
 	fs.Parse(args)
 
 	ov, rels, err := buildOverlay()
@@ -151,13 +156,42 @@ func devMain(args []string) int {
 	fmt.Fprintf(os.Stderr, "loaded in %v\n", time.Since(t0))
 	p.Segmentation = *seg
 	p.MapOrderPerm = *perm
+	if *symlen > 0 {
+		p.MaxSymLen = *symlen
+	}
+	if *params != "" {
+		p.Params = map[string]int{}
+		for _, kv := range strings.Split(*params, ",") {
+			if i := strings.Index(kv, "="); i > 0 {
+				n, _ := strconv.Atoi(kv[i+1:])
+				p.Params[kv[:i]] = n
+			}
+		}
+	}
 	hs := findHarnesses(p, relPkg(*pkg), regexp.MustCompile(*run))
 	if len(hs) == 0 {
 		fmt.Fprintln(os.Stderr, "no harness matches")
 		return 2
 	}
-	rep := p.Explore(hs, gsx.Options{Workers: *workers, Solver: *solver, Verbose: *verbose, Unwind: *unwind, MaxPaths: *maxPaths, SolverLog: *slog, TimeoutMs: *timeout, Preempt: *preempt})
+	rep := p.Explore(hs, gsx.Options{Workers: *workers, Solver: *solver, Verbose: *verbose, Unwind: *unwind, MaxPaths: *maxPaths, SolverLog: *slog, TimeoutMs: *timeout, Preempt: *preempt, ProfileForks: *forks, Deadline: deadlineOf(*budget)})
 	printReport(rep)
+	if *forks {
+		type kv struct {
+			k string
+			v int
+		}
+		var l []kv
+		for k, v := range rep.ForkSites {
+			l = append(l, kv{k, v})
+		}
+		sort.Slice(l, func(i, j int) bool { return l[i].v > l[j].v })
+		for i, e := range l {
+			if i >= 25 {
+				break
+			}
+			fmt.Printf("  FORKS %8d %s\n", e.v, e.k)
+		}
+	}
 	if *replay {
 		for _, hr := range rep.Harness {
 			for i, v := range hr.Violations {
@@ -169,6 +203,13 @@ func devMain(args []string) int {
 		}
 	}
 	return 0
+}
+
+func deadlineOf(d time.Duration) time.Time {
+	if d <= 0 {
+		return time.Time{}
+	}
+	return time.Now().Add(d)
 }
 
 func tail(s string, n int) string {
